@@ -102,6 +102,22 @@ CHECKS = {
         "sequentially, in parallel, and under K perturbed thread schedules (switch interval 1e-6 s, yields injected at LINE events of parallel/*.py and core/simulation.py); results must agree.",
         "Trusted: stateless script entities (so the permitted same-timestamp reordering cannot change behaviour); only GIL-level interleavings are reachable.",
     ),
+    "C06": (
+        "exploration",
+        "DESIGN.md 5/C06",
+        "runtime monitoring: activity log of targets and bystanders (handler entries, process steps, worker deliveries, emissions), probe traffic with per-message fate decided at send time, capacity/holder ledger, all judged by interval arithmetic over the generated fault schedule",
+        "2 600 generated fault schedules per quick run (crash, pause, symmetric/asymmetric partition, latency, loss, capacity faults with overlapping / nested / adjacent / identical windows, handles cancelled before construction, "
+        "before run and during run) against plain, generator, queue-fronted and Server targets. 1 known finding (QueuedResource internals keep working while crashed) is pinned.",
+        "Trusted: observations on exact window-edge nanoseconds are skipped (tie with the fault's own event); cancelled-fault attribution by re-running the case without those faults.",
+    ),
+    "C07": (
+        "exploration",
+        "DESIGN.md 5/C07",
+        "runtime monitoring: emission probe (event pushed with time < clock, attributed to the creating library frame), engine discard log, per-instant delivery counter, over a catalogue of hostile scenarios for every component family and the repository's own suite",
+        "829 hostile scenario cases per quick run from 275 builders in 26 families (bursts on one ns, positive awkward latencies, capacity below the burst); coverage accounting shows 115 of 115 component / load / faults / "
+        "instrumentation classes driven; thorough tier adds 30 parameter draws per builder and the repository's 3 002 tests under the same probes.",
+        "Trusted: attribution of a stale event to the library frame that created it; frozen clock = more than max(20000, 200 x arrivals) deliveries at one instant under a finite workload.",
+    ),
     "C08": (
         "exploration",
         "DESIGN.md 5/C08",
